@@ -85,7 +85,9 @@ protected:
 
     void wait(bool fastmode) {
       if (fastmode) {
-        while (!fastRelease.load(std::memory_order_relaxed)) {
+        // acquire: pairs with the store in wakeup() so that what the waker
+        // wrote before (the work function, the caller's data) is visible
+        while (!fastRelease.load(std::memory_order_acquire)) {
           asmPause();
         }
         fastRelease = 0;
